@@ -824,7 +824,99 @@ def extract_threads(out: Out, srcs):
         out.missing(F, "sharedAccesses", f"{type(e).__name__}: {e}")
 
 
-EXTRACTORS = [extract_bytes, extract_tables, extract_keepalive, extract_reader, extract_backoff, extract_locks, extract_threads]
+# ------------------------------------------------------------------ subscribe() / unsubscribe() argument normalisation
+def extract_sub(out: Out, srcs):
+    F = "SubConsts"
+    c = srcs.get("client.py")
+    if c is None:
+        return
+
+    def raises_value_error(node):
+        return (len(node.body) == 1 and isinstance(node.body[0], ast.Raise)
+                and unparse(node.body[0].exc).startswith("ValueError"))
+
+    def range_checks(fn):
+        """every `if ... v < a or v > b ...: raise ValueError` of the function, in source order"""
+        res = []
+        for i in walk(fn, ast.If):
+            t = i.test
+            if not (isinstance(t, ast.BoolOp) and isinstance(t.op, ast.Or)):
+                continue
+            lo = [v for v in t.values if isinstance(v, ast.Compare) and isinstance(v.ops[0], (ast.Lt, ast.LtE))]
+            hi = [v for v in t.values if isinstance(v, ast.Compare) and isinstance(v.ops[0], (ast.Gt, ast.GtE))]
+            if len(lo) == 1 and len(hi) == 1 and unparse(lo[0].left) == unparse(hi[0].left) and raises_value_error(i):
+                others = [unparse(v) for v in t.values if v is not lo[0] and v is not hi[0]]
+                res.append((i.lineno, unparse(lo[0].left), cmp_name(lo[0].ops[0]), const(lo[0].comparators[0]),
+                            cmp_name(hi[0].ops[0]), const(hi[0].comparators[0]), others))
+        res.sort()
+        return res
+
+    def len_checks(fn, var):
+        """every `len(var) == k` comparison inside a test whose `if` raises ValueError, in source order"""
+        res = []
+        for i in walk(fn, ast.If):
+            if not raises_value_error(i):
+                continue
+            for cmpn in walk(i.test, ast.Compare):
+                if unparse(cmpn.left) == f"len({var})":
+                    res.append((cmpn.lineno, cmp_name(cmpn.ops[0]), const(cmpn.comparators[0]), unparse(i.test)))
+        res.sort()
+        return res
+
+    try:
+        f = c.func("Client.subscribe")
+        rc = range_checks(f)
+        if [r[1] for r in rc] != ["qos", "o", "q"]:
+            raise Missing(f"subscribe(): expected range checks on qos, o, q in that order, found {[r[1] for r in rc]}")
+        if rc[0][6] or rc[1][6] or rc[2][6] != ["isinstance(q, SubscribeOptions)"]:
+            raise Missing(f"subscribe(): unexpected extra disjuncts in the QoS checks: {[r[6] for r in rc]}")
+        for tag, r in zip(("Str", "L5", "L3"), rc):
+            w = f"client.py Client.subscribe line {r[0]}: {r[1]} < {r[3]} or {r[1]} > {r[5]}"
+            out.add(F, f"subQos{tag}LoCmp", "Cmp", f".{r[2]}", w)
+            out.add(F, f"subQos{tag}Lo", "Int", lean_val(r[3], "Int"), w)
+            out.add(F, f"subQos{tag}HiCmp", "Cmp", f".{r[4]}", w)
+            out.add(F, f"subQos{tag}Hi", "Int", lean_val(r[5], "Int"), w)
+        lt = len_checks(f, "topic")
+        if len(lt) != 2 or "topic is None" not in lt[0][3]:
+            raise Missing(f"subscribe(): expected `topic is None or len(topic) == 0` and `len(topic) == 0` (list), found {[x[3] for x in lt]}")
+        out.add(F, "subStrEmptyCmp", "Cmp", f".{lt[0][1]}", f"client.py Client.subscribe line {lt[0][0]}: {lt[0][3]}")
+        out.add(F, "subStrEmptyLen", "Nat", str(lt[0][2]), "client.py Client.subscribe")
+        out.add(F, "subEmptyListCmp", "Cmp", f".{lt[1][1]}", f"client.py Client.subscribe line {lt[1][0]}: {lt[1][3]} (Empty topic list)")
+        out.add(F, "subEmptyListLen", "Nat", str(lt[1][2]), "client.py Client.subscribe")
+        l3 = len_checks(f, "t")
+        if len(l3) != 1 or "t is None" not in l3[0][3]:
+            raise Missing(f"subscribe(): expected `t is None or len(t) == 0 or ...` in the MQTT 3 list loop, found {[x[3] for x in l3]}")
+        out.add(F, "subL3EmptyCmp", "Cmp", f".{l3[0][1]}", f"client.py Client.subscribe line {l3[0][0]}: {l3[0][3]}")
+        out.add(F, "subL3EmptyLen", "Nat", str(l3[0][2]), "client.py Client.subscribe")
+        # the filter check is applied to every element of topic_qos_list, and before the socket test
+        anyc = [n for n in walk(f, ast.If) if "self._filter_wildcard_len_check(topic) != MQTT_ERR_SUCCESS for topic, _ in topic_qos_list" in unparse(n.test)
+                and unparse(n.test).startswith("any(") and raises_value_error(n)]
+        socks = [n for n in walk(f, ast.If) if unparse(n.test) == "self._sock is None"]
+        if len(anyc) != 1 or len(socks) != 1 or not anyc[0].lineno < socks[0].lineno:
+            raise Missing("subscribe(): `if any(filter check fails for every element): raise ValueError` before `if self._sock is None`")
+        out.add(F, "subFilterCheckAll", "Bool", "true", f"client.py Client.subscribe line {anyc[0].lineno}: {unparse(anyc[0].test)[:90]}")
+    except Missing as e:
+        out.missing(F, "subscribe-normalisation", e)
+
+    try:
+        f = c.func("Client.unsubscribe")
+        lt = len_checks(f, "topic")
+        if len(lt) != 2:
+            raise Missing(f"unsubscribe(): expected `len(topic) == 0` for the string and for the list form, found {[x[3] for x in lt]}")
+        out.add(F, "unsubStrEmptyCmp", "Cmp", f".{lt[0][1]}", f"client.py Client.unsubscribe line {lt[0][0]}: {lt[0][3]}")
+        out.add(F, "unsubStrEmptyLen", "Nat", str(lt[0][2]), "client.py Client.unsubscribe")
+        out.add(F, "unsubEmptyListCmp", "Cmp", f".{lt[1][1]}", f"client.py Client.unsubscribe line {lt[1][0]}: {lt[1][3]} (Empty topic list)")
+        out.add(F, "unsubEmptyListLen", "Nat", str(lt[1][2]), "client.py Client.unsubscribe")
+        le = len_checks(f, "t")
+        if len(le) != 1:
+            raise Missing(f"unsubscribe(): expected `len(t) == 0 or ...` in the list loop, found {[x[3] for x in le]}")
+        out.add(F, "unsubElemEmptyCmp", "Cmp", f".{le[0][1]}", f"client.py Client.unsubscribe line {le[0][0]}: {le[0][3]}")
+        out.add(F, "unsubElemEmptyLen", "Nat", str(le[0][2]), "client.py Client.unsubscribe")
+    except Missing as e:
+        out.missing(F, "unsubscribe-normalisation", e)
+
+
+EXTRACTORS = [extract_bytes, extract_tables, extract_keepalive, extract_reader, extract_backoff, extract_locks, extract_threads, extract_sub]
 
 
 def register(fn):
